@@ -556,6 +556,59 @@ theorem parseRegexTail_sim (s : PState) :
     · exact wp2_pure _ _ _ _ rfl
     · exact parseRegexGo_sim hp _
 
+omit hp in
+theorem wp2_peekComment (s : PState) (Q : Bool → Bool → PState → Prop)
+    (h : Q (opensComment s.r.peek2.1 s.r.peek2.2) (opensComment s.r.peek2.1 s.r.peek2.2) s) :
+    wp2 p1 p2 peekComment peekComment s Q := ⟨s, rfl, rfl, h⟩
+
+theorem skipCommentsLoop_sim (fuel : Nat) (s : PState) :
+    wp2 p1 p2 (skipCommentsLoop fuel) (skipCommentsLoop fuel) s (fun a b _ => a = b) := by
+  induction fuel generalizing s with
+  | zero => exact wp2_throw_same _ _ _
+  | succ fuel ih =>
+    rw [skipCommentsLoop_succ]
+    apply wp2_bind
+    apply wp2_peekComment
+    split
+    · apply wp2_bind
+      refine wp2_mono (pscan_sim hp s) ?_
+      intro l1 l2 t hl
+      by_cases hc : l1.tok ≠ .COMMENT
+      · have hc' : l2.tok ≠ .COMMENT := by rw [← hl.tok]; exact hc
+        rw [if_pos hc, if_pos hc']
+        apply wp2_bind
+        apply wp2_unscan
+        exact wp2_pure _ _ _ _ rfl
+      · have hc' : ¬ l2.tok ≠ .COMMENT := by rw [← hl.tok]; exact hc
+        rw [if_neg hc, if_neg hc']
+        apply wp2_bind
+        apply wp2_peekRune
+        dsimp only
+        apply wp2_ite
+        split
+        · apply wp2_bind
+          refine wp2_mono (consumeWhitespace_sim hp _) ?_
+          intro _ _ t2 _
+          exact ih t2
+        · exact ih _
+    · exact wp2_pure _ _ _ _ rfl
+
+theorem parseRegexSkip_sim (s : PState) :
+    wp2 p1 p2 parseRegexSkip parseRegexSkip s (fun a b _ => a = b) := by
+  unfold parseRegexSkip
+  apply wp2_bind
+  apply wp2_get
+  show wp2 p1 p2 (skipCommentsLoop (s.n + s.r.rest.length + 1) >>= _)
+    (skipCommentsLoop (s.n + s.r.rest.length + 1) >>= _) s _
+  apply wp2_bind
+  refine wp2_mono (skipCommentsLoop_sim hp _ s) ?_
+  intro a b t hab
+  subst hab
+  apply wp2_ite
+  split
+  · exact wp2_pure _ _ _ _ rfl
+  · exact parseRegexTail_sim hp t
+
 theorem parseRegex_sim (s : PState) :
     wp2 p1 p2 parseRegex parseRegex s (fun a b _ => a = b) := by
   rw [parseRegex_eq]
@@ -573,8 +626,8 @@ theorem parseRegex_sim (s : PState) :
   · apply wp2_bind
     refine wp2_mono (consumeWhitespace_sim hp _) ?_
     intro _ _ t _
-    exact parseRegexTail_sim hp t
-  · exact parseRegexTail_sim hp _
+    exact parseRegexSkip_sim hp t
+  · exact parseRegexSkip_sim hp _
 
 end
 
